@@ -30,7 +30,7 @@ ASSUMPTIONS = [
 ]
 
 P = PP = None
-NAMES = ['A', 'B', 'C', 'D', 'E', 'F', 'G', 'L', 'M', 'N1', 'N2', 'R', 'S', 'T', 'X', 'Y', 'Z']
+NAMES = ['A', 'B', 'C', 'D', 'E', 'F', 'G', 'L', 'M', 'N1', 'N2', 'R', 'S', 'T', 'X', 'Y', 'Z', 'IC', 'IPar']
 SMALL = ['A', 'B', 'C']
 FLAGS = [(cs, cd, rd) for cs in (False, True) for (cd, rd) in ((True, True), (True, False), (False, False))]
 PENDING, UNKNOWN, PROMOTED = 0, 1, 2
@@ -57,6 +57,7 @@ def enum_count(tier):
 def setup():
     global P, PP
     P, PP = core.import_package()
+    import prettyprinter.extras.ipython_repr_pretty  # noqa: imported (not installed) before forking: it is slow to import
 
 
 def lattice():
@@ -87,12 +88,27 @@ def lattice():
     X = mk('X', T, dict)
     Y = mk('Y', T, Sl)
     Z = mk('Z', T, ValueError)
+    # IPython protocol (bundled extra, installed first): IC(B) and IPar implement _repr_pretty_; IPar prints an IC
+    def _rp_child(self, p, cycle):
+        p.text('RP_IC(')
+        p.text('0')
+        p.text(')')
+
+    def _rp_parent(self, p, cycle):
+        p.text('IPar(')
+        p.pretty(self.child)
+        p.text(')')
+    IC = mk('IC', B)
+    IC._repr_pretty_ = _rp_child
+    IPar = mk('IPar')
+    IPar._repr_pretty_ = _rp_parent
+    IPar.child = IC()
     # R and its subclass S use pretty_repr as their __repr__
     R = mk('R')
     S = mk('S', R)
     R.__repr__ = P.pretty_repr
     S.__repr__ = P.pretty_repr
-    return dict(A=A, B=B, C=C, D=D, E=E, F=F, G=G, L=L, M=M, N1=N1, N2=N2, R=R, S=S, T=T, X=X, Y=Y, Z=Z)
+    return dict(A=A, B=B, C=C, D=D, E=E, F=F, G=G, L=L, M=M, N1=N1, N2=N2, R=R, S=S, T=T, X=X, Y=Y, Z=Z, IC=IC, IPar=IPar)
 
 
 BUNDLED = (list, dict, BaseException)
@@ -155,6 +171,13 @@ class Model:
             return self.reg[k]['tag']
         if not self.has_bundled(c):
             for fn, tag in self.preds:
+                if fn == 'ipython_protocol':
+                    # the extra's predicate (registered before everything else) accepts what implements _repr_pretty_
+                    if c.__name__ == 'IC':
+                        return 'RP_IC(0)'
+                    if c.__name__ == 'IPar':
+                        return 'IPar(%s)' % self.tag(self.classes['IC'])
+                    continue
                 if isinstance(fn, tuple):
                     # a predicate that raises when it is REACHED with a foreign value: contained, repr is used
                     if issubclass(c, fn[1]):
@@ -206,7 +229,8 @@ class Model:
 # ways an instance reaches the printer: bare, or as an element of a bundled container
 NEST_TEXT = {False: '%s', None: '%s', True: '[%s]', 'list2': '[%s, %s]', 'tuple2': '(%s, 1)',
              'dictval': "{'k': %s}", 'deep': '[[%s], %s]', 'commented': '%s  # note',
-             'odictval': "collections.OrderedDict([('k', %s)])", 'dequeel': 'collections.deque([%s, 1])'}
+             'odictval': "collections.OrderedDict([('k', %s)])", 'dequeel': 'collections.deque([%s, 1])',
+             'tcommented': '%s', 'tcommented_el': '[1, %s]'}
 
 
 def _nest(form, c):
@@ -228,6 +252,10 @@ def _nest(form, c):
         return collections.OrderedDict(k=c())
     if form == 'dequeel':
         return collections.deque([c(), 1])
+    if form == 'tcommented':
+        return P.trailing_comment(c(), 'tc')
+    if form == 'tcommented_el':
+        return [1, P.trailing_comment(c(), 'tc')]
     raise core.HarnessError('bad nesting %r' % (form,))
 
 
@@ -281,7 +309,7 @@ def generate(rng, idx, tier):
             ops.append(['repr', rng.choice(['R', 'S'])])
         elif k == 'pr':
             ops.append(['pr', c, rng.choice([False, False, False, True, 'list2', 'tuple2', 'dictval', 'deep', 'commented',
-                                            'odictval', 'dequeel', 'long'])])
+                                            'odictval', 'dequeel', 'long', 'tcommented', 'tcommented_el'])])
         elif k == 'ir':
             if rng.random() < 0.05:
                 ops.append(['ir', c, [rng.random() < 0.5, False, True]])
@@ -296,11 +324,14 @@ def generate(rng, idx, tier):
 def execute(spec):
     warnings.simplefilter('ignore')
     from prettyprinter import register_pretty, is_registered, pformat
+    P.install_extras(include=['ipython_repr_pretty'], raise_on_error=True)
     cls = lattice()
     base = {}
     for n, c in cls.items():
         base[c] = pformat(c())
     m = Model(base)
+    m.classes = cls
+    m.preds.append(('ipython_protocol', None))
     counters = {}
     res = dict(steps=len(spec['ops']), counters=counters, nontrivial=False,
                digest=core.digest_of(spec['ops']), **{'class': None})
@@ -376,6 +407,8 @@ def execute(spec):
             c = cls[op[1]]
             nested = op[2]
             exp = m.tag(c)
+            if nested in ('tcommented', 'tcommented_el') and (m.has_bundled(c) or c.__name__ in ('R', 'S', 'IC', 'IPar')):
+                nested = False      # bundled printers show the comment; keep to printers that cannot
             if nested == 'long':
                 # >= 40 elements mixing the class with every other class of the lattice
                 order = [c] + [cls[n] for n in sorted(cls)]
@@ -401,6 +434,8 @@ def execute(spec):
                 return fail('print_raised', type(e).__name__, op=op)
             exp = NEST_TEXT[nested] % ((exp,) * NEST_TEXT[nested].count('%s'))
             m.after_print(c)
+            if c.__name__ == 'IPar' and m.winner(c) is None:
+                m.after_print(cls['IC'])      # the protocol printer printed its child
             trace.append(op + [got])
             if registered:
                 res['nontrivial'] = True
